@@ -23,6 +23,7 @@ func init() {
 			{Name: "decay-wrong-parameter", File: "score.go", Old: "\t\t\ttstats.meshFailurePenalty *= topicParams.MeshFailurePenaltyDecay", New: "\t\t\ttstats.meshFailurePenalty *= topicParams.MeshMessageDeliveriesDecay", Expect: "R10.2"},
 			{Name: "decay-to-zero-dropped", File: "score.go", Old: "\t\t\tif tstats.invalidMessageDeliveries < ps.params.DecayToZero {\n\t\t\t\ttstats.invalidMessageDeliveries = 0\n\t\t\t}\n", New: "", Expect: "R10.2"},
 			{Name: "recap-only-active-records", File: "score.go", Old: "\t\tif tstats.meshMessageDeliveries > p.MeshMessageDeliveriesCap {\n\t\t\ttstats.meshMessageDeliveries = p.MeshMessageDeliveriesCap", New: "\t\tif tstats.meshMessageDeliveriesActive && tstats.meshMessageDeliveries > p.MeshMessageDeliveriesCap {\n\t\t\ttstats.meshMessageDeliveries = p.MeshMessageDeliveriesCap", Expect: "R10.2"},
+			{Name: "recap-skips-pruned-records", File: "score.go", Old: "\t\tif !ok {\n\t\t\tcontinue\n\t\t}\n\n\t\tif tstats.firstMessageDeliveries > p.FirstMessageDeliveriesCap {", New: "\t\tif !ok || !tstats.inMesh {\n\t\t\tcontinue\n\t\t}\n\n\t\tif tstats.firstMessageDeliveries > p.FirstMessageDeliveriesCap {", Expect: "R10.2"},
 			{Name: "recap-needs-both-caps", File: "score.go", Old: "\trecap := false\n\tif p.FirstMessageDeliveriesCap < old.FirstMessageDeliveriesCap {\n\t\trecap = true\n\t}\n\tif p.MeshMessageDeliveriesCap < old.MeshMessageDeliveriesCap {\n\t\trecap = true\n\t}\n\tif !recap {", New: "\trecap := p.FirstMessageDeliveriesCap < old.FirstMessageDeliveriesCap && p.MeshMessageDeliveriesCap < old.MeshMessageDeliveriesCap\n\tif !recap {", Expect: "R10.2"},
 			{Name: "validator-accepts-positive-p4-weight", File: "score_params.go", Old: "\tif p.InvalidMessageDeliveriesWeight > 0 || isInvalidNumber(p.InvalidMessageDeliveriesWeight) {", New: "\tif isInvalidNumber(p.InvalidMessageDeliveriesWeight) {", Expect: "R10.3"},
 			{Name: "retain-positive-scores", File: "score.go", Old: "\tif ps.score(p) > 0 {\n\t\tps.removeIPs(p, pstats.ips)", New: "\tif ps.score(p) >= 0 {\n\t\tps.removeIPs(p, pstats.ips)", Expect: "R10.4"},
